@@ -67,9 +67,9 @@ H("C16", "blp", _BH, "quick", "canary", ["c16_header_canary"], ["types::header::
 # ------------------------------------------------------------------------------- C16.b header
 H("C16", "blp", _BE, "quick", "C16.b header encode->parse: parsed header == written header (version, content tag, flags, width, height, 16 offsets, 16 sizes), "
   "bytes written == BlpHeader::size(version); one harness per version tag / flag flavour",
-  ["c16b_header_roundtrip_blp0", "c16b_header_roundtrip_blp1", "c16b_header_roundtrip_blp2"], _hdr_fns,
+  ["c16b_header_roundtrip_blp0", "c16b_header_roundtrip_blp2"], _hdr_fns,
   "content tag, alpha depth, extra, has_mipmaps (u32) resp. compression, alpha depth, alpha type, has_mipmaps (u8), width, height, 16 offsets and 16 sizes all symbolic",
-  "version tag concrete per harness; width, height <= 65535",
+  "version tag concrete per harness (BLP0, BLP2); width, height <= 65535",
   assumes=["width, height <= 65535", "BLP0/BLP1: alpha depth in {0,8} for JPEG content, {0,1,4,8} for direct content (documented values; the parser normalises others to 0)",
            "flag flavour and locator kind match the version tag (BLP0: old flags + external; BLP1: old flags + internal; BLP2: BLP2 flags + internal)"],
   stubs=[FMT_BLP], timeout=900)
@@ -141,11 +141,13 @@ H("C16", "blp", _BE, "quick", "C16.c BLP0 palettised level goes to an external f
 
 # ------------------------------------------------------------------------------- C16.d encoder-side locator check
 H("C16", "blp", _BE, "quick", "C16.d encoder's locator check (no mipmaps): offset below the bytes already written -> InvalidOffset; declared size != encoded level -> "
-  "InvalidMipmapSize; otherwise the level lands exactly at `offset` behind zero padding, ends the file, palette word little-endian before it; "
-  "entries of absent levels are ignored", ["c16d_locator_checked_by_encoder"], ["encode::{encode_raw1,encode_raw,encode_raw1_image}"],
-  "offset symbolic in 0..=16, declared size symbolic (u32), the 15 other offset/size entries symbolic, 3 level bytes and 1 palette word symbolic",
-  "one level of 3 bytes (2x1, alpha 4), 4 bytes + 1 palette word already written",
-  assumes=["offset <= 16 (padding <= 8 bytes)", "declared size != 0 (a zero size makes the encoder skip the level without error; no converted texture has it)"], stubs=[FMT_BLP])
+  "InvalidMipmapSize; otherwise the level lands exactly at `offset` behind zero padding, ends the file, palette word little-endian before it, earlier bytes untouched; "
+  "entries of absent levels are ignored",
+  ["c16d_locator_offset_below_filled_rejected", "c16d_locator_exact_offset", "c16d_locator_padded_offset"], ["encode::{encode_raw1,encode_raw,encode_raw1_image}"],
+  "offset symbolic in 0..8 (below the filled length) resp. concrete 8 (exact) and 11 (3 padding bytes); declared size symbolic (u32); the 15 other offset/size "
+  "entries, 3 level bytes, 1 palette word and the 4 preceding bytes symbolic",
+  "one level of 3 bytes (2x1, alpha 4), 4 bytes + 1 palette word already written; a symbolic padding length does not finish",
+  assumes=["declared size != 0 (a zero size makes the encoder skip the level without error; no converted texture has it)"], stubs=[FMT_BLP])
 
 # ------------------------------------------------------------------------------- C16.e complete mipmap chains (log2 model)
 H("C16", "blp", _BE, "quick", "C16.e raw BGRA with the complete chain (2 levels): levels are stored back to back in level order without overlap, the last one ends the file, "
@@ -167,3 +169,11 @@ H("C16", "blp", _BE, "quick", "C16.e witness: the structure image_to_blp returns
   "concrete shape 4x1 BLP1 JPEG, has_mipmaps = 1, one level of 5 symbolic bytes (shape of the converter's output, from a native run)", "one shape",
   stubs=[FMT_BLP, LOG2], expect="witness:KF-C16-mipchain-nonsquare", timeout=900)
 H("C16", "blp", _BE, "quick", "canary", ["c16_encode_canary"], ["encode::encode_header"], "vacuity twin", "-", expect="canary")
+H("C16", "blp", _BE, "thorough", "C16.b header encode->parse, BLP1 (old flags + internal locator)", ["c16b_header_roundtrip_blp1"], _hdr_fns,
+  "content tag, alpha depth, extra, has_mipmaps, width, height, 16 offsets and 16 sizes symbolic", "version BLP1; width, height <= 65535",
+  assumes=["width, height <= 65535", "alpha depth in {0,8} for JPEG content, {0,1,4,8} for direct content", "old flags + internal locator"], stubs=[FMT_BLP], timeout=2400)
+
+# one time-out group per tier, so that a tier is a single `cargo kani -j` run
+for _h in _H:
+    if _h["prop"] == "C16":
+        _h["timeout"] = 900 if _h["tier"] == "quick" else 2400
